@@ -1,10 +1,11 @@
 #!/bin/bash
-# usage: tools/seed_batch.sh C05 C06 ...   (expects /tmp/seed-<id>-out/) -> confirm + run quick, log to /var/tmp/seedlog_<id>.txt
+# usage: tools/seed_batch.sh <name> ...   name = C05 (round 1: /tmp/seed-C05-out -> s01-C05) or r2-C05 (-> s02-C05)
+# confirm + run quick; log to /var/tmp/seedlog_<id>.txt
 cd "$(dirname "$0")/.."
-for c in "$@"; do
-  n=$(ls -d seeded/s*-$c 2>/dev/null | wc -l); id=$(printf "s%02d-%s" $((n+1)) $c)
-  [ -n "${SEED_ID:-}" ] && id="$SEED_ID"
-  python3 tools/seeded.py confirm $id $c /tmp/seed-$c-out > /var/tmp/seedlog_$id.txt 2>&1
+for name in "$@"; do
+  c="${name##*-}"; round="01"; case "$name" in r2-*) round="02";; r3-*) round="03";; esac
+  id="s${round}-$c"; [ -n "${SEED_ID:-}" ] && id="$SEED_ID"
+  python3 tools/seeded.py confirm $id $c /tmp/seed-$name-out > /var/tmp/seedlog_$id.txt 2>&1
   if grep -q '"confirmed": true' /var/tmp/seedlog_$id.txt; then
     python3 tools/seeded.py run $id quick >> /var/tmp/seedlog_$id.txt 2>&1
   fi
